@@ -200,6 +200,8 @@ func (r *run) execOp(op core.Op) {
 		r.opNewRaw(op)
 	case "rename":
 		r.opRename(op)
+	case "dropaccts":
+		r.opDropAccts(op)
 	case "acctquery":
 		r.opAcctQuery(op)
 	case "newwatch":
@@ -1117,6 +1119,31 @@ func (r *run) opNewRaw(op core.Op) {
 		r.env.Count("probe.new-account")
 	}
 	r.after(res)
+}
+
+// opDropAccts: ScopedKeyManager.InvalidateAccountCache, the exported call the
+// wallet makes after a rolled-back account creation, an account-import
+// preview and a failed recovery batch. It drops cached account state only:
+// nothing the manager answers may change, and whatever Lock has to clear must
+// still be cleared when no account of a scope is loaded.
+func (r *run) opDropAccts(op core.Op) {
+	si, sc, a := r.pickAcct(op.Arg(0), op.Arg(1))
+	sm := r.scoped(si)
+	if sm == nil {
+		return
+	}
+	if op.Arg(2)%3 != 0 {
+		for i := range sc.Accts {
+			sm.InvalidateAccountCache(sc.Accts[i].Num)
+		}
+		sm.InvalidateAccountCache(waddrmgr.ImportedAddrAccount)
+		r.env.Count("probe.every-account-of-a-scope-dropped-from-the-cache")
+	} else {
+		sm.InvalidateAccountCache(a.Num)
+	}
+	r.env.Count("op.dropaccts")
+	r.env.Eff()
+	r.env.Logf("%d dropaccts s%d a%d all=%v", r.opIdx, si, a.Num, op.Arg(2)%3 != 0)
 }
 
 func (r *run) opRename(op core.Op) {
